@@ -161,6 +161,14 @@ pub fn render(
     r
 }
 
+/// The same rendering without anything behind its last token or comment
+/// (the document ends with the last byte of the program).
+pub fn tight(mut r: Rendered) -> Rendered {
+    let end = r.tok_ranges.iter().map(|t| t.1).chain(r.comments.iter().map(|c| c.2)).max().unwrap_or(0);
+    r.text.truncate(end);
+    r
+}
+
 pub fn render_plain(toks: &[Tok], layout: Layout) -> Rendered {
     render(toks, layout, &[], &|_| String::new())
 }
